@@ -3,7 +3,8 @@ import vlib
 from props import drawgen
 
 RULE = ("random histories (length <= 40) over {sleep, wake, set_pixel, draw_iter, fill_solid, clear, set_orientation, scroll region/offset, "
-        "tearing effect} after init of every built-in model (and external ones), including repeated sleep or wake; is_sleeping() is compared "
+        "tearing effect} after init of every built-in model (and external ones), including repeated sleep or wake, and one sleep/wake call in five "
+        "FAILING at its Interface call (the flag must then not move: 'last successful'); is_sleeping() is compared "
         "after every op with the reference controller's sleep state decoded from the commands actually sent; every 0x10/0x11 must be "
         "followed inside its call by >= 120 ms of virtual delay (embedded-hal's default delay_us/delay_ms bodies really run); non-trivial = "
         "history contains >= 2 sleep/wake ops")
@@ -24,10 +25,12 @@ def gen(rng, tier, info):
             c = rng.below(12)
             w, h = pc["opts"]["w"], pc["opts"]["h"]
             llw, llh = (w, h) if rot in (0, 2) else (h, w)
+            # one sleep / wake call in five fails at its (only) Interface call: the flag must not move
+            fk = 0 if rng.chance(1, 5) else -1
             if c < 3:
-                ops.append((-1, ("sl",))); nsl += 1
+                ops.append((fk, ("sl",))); nsl += 1
             elif c < 6:
-                ops.append((-1, ("wk",))); nsl += 1
+                ops.append((fk, ("wk",))); nsl += 1
             elif c == 6:
                 ops.append((-1, ("sp", drawgen.edge_coord(rng, llw), drawgen.edge_coord(rng, llh), drawgen.color(rng, cmax))))
             elif c == 7:
@@ -42,7 +45,7 @@ def gen(rng, tier, info):
             else:
                 ops.append((-1, ("te", rng.below(3))))
         pc["ops"] = ops
-        pc["tags"] = [pc["md"], "model:%d" % pc["model"] if pc["model"] < 100 else "model:ext", "slops%d" % min(nsl, 5)]
+        pc["tags"] = (["fault"] if any(f >= 0 for f, _ in ops) else []) + [pc["md"], "model:%d" % pc["model"] if pc["model"] < 100 else "model:ext", "slops%d" % min(nsl, 5)]
         pc["nontrivial"] = nsl >= 2
         cases.append(vlib.pcase(pc))
     return cases
